@@ -16,11 +16,16 @@
        weights: the BFS labels, every step and the result of the depth-first search (spanning tree `edges`, predecessor
        table `visited`, ring-closure pairs `tokens`, their cycle numbers) and hence one whole component of `traverse` are
        the renamed originals (sections 8-9); so is the token list (atoms, bonds, parentheses) the tree is flattened into,
-       i.e. the branch structure and the order in which the atoms of the component are written (section 11).
+       i.e. the branch structure and the order in which the atoms of the component are written (section 11);
+     - the ring-closure numbers (`casted_cycles`, heap) assigned for a component are IDENTICAL on the two sides, the closure
+       lists and the neighbour lists used for the stereo marks are the renamed ones, and the last loop (`emit`) produces
+       the renamed output list with the same strings and the mapped atom order PROVIDED the atom / bond token functions
+       of the two sides agree on the tokens that are written (section 12).
 
    What is NOT proved (the goal is stated as [smiles_invariant_discrete_goal] below, not as a theorem): that the whole
-   written string and atom order are invariant - the closure numbering, the neighbour lists for the stereo marks, the atom
-   / bond tokens and the stereo marks would have to be carried through the renumbering as well, and the BFS labels are
+   written string and atom order are invariant - the agreement of the atom / bond token functions (`_format_atom` with the
+   stereo marks, `_format_bond` with the cis/trans map: the sign algebra of C12) is a HYPOTHESIS of section 12, the pieces are
+   not yet composed into `component` / `components` / `smiles_text`, and the BFS labels are
    only shown equivariant for renumberings that keep the neighbour insertion order (independence of the BFS distances
    from the neighbour order needs the shortest-path characterisation of the BFS, not proved). *)
 From Coq Require Import ZArith List String Bool Lia Permutation Sorting.Sorted.
@@ -828,4 +833,178 @@ Theorem component_tokens_ren_order (g : mol) (s w w' tb tb' : Z -> Z) (o : opts)
   (forall l, tok_atoms (map (ren_tok s) l) = map s (tok_atoms l)).
 Proof.
   intros Hwf Hs Hw Hr st st' Hi Hp Hse Hc. split; [apply component_tokens_ren; assumption | apply tok_atoms_ren].
+Qed.
+
+(* ==================================================================================================== *)
+(* 12. ring-closure numbers, neighbour lists, and the emission of the strings under renumbering          *)
+Definition ren_otok (s : Z -> Z) (t : otok) : otok :=
+  match t with
+  | OAtom n x => OAtom (s n) x | OBond n m x => OBond (s n) (s m) x | OCBond n m x => OCBond (s n) (s m) x
+  | OClosure n m c => OClosure (s n) (s m) c | OOpen => OOpen | OClose => OClose | ODot => ODot
+  end.
+Lemma spell_ren s l : spell (map (ren_otok s) l) = spell l.
+Proof. unfold spell. f_equal. rewrite map_map. apply map_ext. intros [ | | | | | | ]; reflexivity. Qed.
+
+Section EmitRen.
+  Variable s : Z -> Z.
+  Hypothesis s_inj : forall x y, s x = s y -> x = y.
+  Let rtk := fun pc : Z * Z => (s (fst pc), snd pc).
+
+  Lemma zgetl_ren_tokens tokens a : zgetl (ren_tokens s tokens) (s a) = map rtk (zgetl tokens a).
+  Proof. unfold zgetl, ren_tokens. rewrite (zget_renG s s_inj (map rtk)). destruct (zget tokens a); reflexivity. Qed.
+
+  Lemma zget_ren_tokens tokens a : zget (ren_tokens s tokens) (s a) = option_map (map rtk) (zget tokens a).
+  Proof. unfold ren_tokens. apply (zget_renG s s_inj (map rtk)). Qed.
+  Lemma zget_ren_vis d a : zget (ren_vis s d) (s a) = option_map (map s) (zget d a).
+  Proof. unfold ren_vis. apply (zget_renG s s_inj (map s)). Qed.
+
+  Lemma zhas_ren_tokens tokens a : zhas (ren_tokens s tokens) (s a) = zhas tokens a.
+  Proof. unfold ren_tokens. apply (zhas_renG s s_inj (map rtk)). Qed.
+
+  (* positions of the ring-closure atoms in the token list *)
+  Lemma ring_positions_ren tokens smi : forall i,
+    ring_positions (ren_tokens s tokens) (map (ren_tok s) smi) i = ren_labels s (ring_positions tokens smi i).
+  Proof.
+    induction smi as [|t r IH]; intros i; cbn [map ring_positions]; [reflexivity|].
+    destruct t; cbn [ren_tok]; try apply IH.
+    rewrite zhas_ren_tokens. destruct (zhas tokens n); [|apply IH].
+    cbn [ren_labels map fst snd]. f_equal. apply IH.
+  Qed.
+
+  (* closure numbers never look at atom numbers *)
+  Lemma number_closures_ren cl : forall casted heap released,
+    number_closures (map rtk cl) casted heap released = number_closures cl casted heap released.
+  Proof.
+    induction cl as [|[a c] r IH]; intros casted heap released; cbn [map number_closures]; [reflexivity|].
+    unfold rtk at 1. cbn [fst snd]. destruct (zget casted c); [apply IH|]. destruct heap; [reflexivity | apply IH].
+  Qed.
+
+  (* casted_cycles and the heap after a component: identical *)
+  Theorem number_atoms_ren tokens ro todo : forall casted heap,
+    number_atoms (ren_tokens s tokens) (ren_labels s ro) (ren_labels s todo) casted heap = number_atoms tokens ro todo casted heap.
+  Proof.
+    induction todo as [|[a p] r IH]; intros casted heap; cbn [ren_labels map number_atoms fst snd]; [reflexivity|].
+    rewrite zgetl_ren_tokens.
+    rewrite (sort_by_map (fun x : Z * Z => [match zget ro (fst x) with Some p => p | None => 0 end])
+                         (fun x : Z * Z => [match zget (ren_labels s ro) (fst x) with Some p => p | None => 0 end]) rtk).
+    - rewrite number_closures_ren.
+      destruct (number_closures _ casted heap []) as [[[casted' heap'] released]|e]; [|reflexivity].
+      apply IH.
+    - intros y _. unfold rtk. cbn [fst]. unfold ren_labels. rewrite (zget_renG s s_inj (fun v : Z => v)).
+      destruct (zget ro (fst y)); reflexivity.
+  Qed.
+
+  Lemma zset_ren_tokens tokens n l :
+    zset (ren_tokens s tokens) (s n) (map rtk l) = ren_tokens s (zset tokens n l).
+  Proof.
+    unfold ren_tokens. induction tokens as [|[k v] d IH]; cbn; [reflexivity|].
+    rewrite (seqb s s_inj). destruct (n =? k); cbn; [reflexivity | rewrite IH; reflexivity].
+  Qed.
+
+  Lemma zupd_ren_vis visited n (f f' : list Z -> list Z) : (forall v, f' (map s v) = map s (f v)) ->
+    zupd (ren_vis s visited) (s n) f' = ren_vis s (zupd visited n f).
+  Proof.
+    intros H. unfold ren_vis. induction visited as [|[k v] d IH]; cbn; [reflexivity|].
+    rewrite (seqb s s_inj). destruct (n =? k); cbn; [rewrite H; reflexivity | rewrite IH; reflexivity].
+  Qed.
+
+  (* the closure lists in closure-number order and the neighbour lists used for the stereo marks *)
+  Theorem order_neighbours_ren smi casted edges : forall tokens visited,
+    order_neighbours (map (ren_tok s) smi) casted (ren_vis s edges) (ren_tokens s tokens) (ren_vis s visited) =
+    (ren_tokens s (fst (order_neighbours smi casted edges tokens visited)),
+     ren_vis s (snd (order_neighbours smi casted edges tokens visited))).
+  Proof.
+    induction smi as [|t r IH]; intros tokens visited; cbn [map order_neighbours]; [reflexivity|].
+    destruct t; cbn [ren_tok]; try apply IH.
+    rewrite zget_ren_tokens, zget_ren_vis.
+    destruct (zget tokens n) as [l|]; cbn [option_map].
+    - rewrite (sort_by_map (fun x : Z * Z => [casted_of casted (snd x)]) (fun x : Z * Z => [casted_of casted (snd x)]) rtk)
+        by (intros y _; reflexivity).
+      rewrite zset_ren_tokens.
+      rewrite (zupd_ren_vis visited n (fun v => v ++ map fst (sort_by (fun x : Z * Z => [casted_of casted (snd x)]) l))).
+      + destruct (zget edges n) as [ch|]; cbn [option_map].
+        * rewrite (zupd_ren_vis _ n (fun v => v ++ ch)) by (intros v; rewrite map_app; reflexivity). apply IH.
+        * apply IH.
+      + intros v. rewrite map_app, !map_map. reflexivity.
+    - destruct (zget edges n) as [ch|]; cbn [option_map].
+      + rewrite (zupd_ren_vis _ n (fun v => v ++ ch)) by (intros v; rewrite map_app; reflexivity). apply IH.
+      + apply IH.
+  Qed.
+
+  (* ---- emission ---- *)
+  Definition ren_emit_cl (r : pyres (list otok * list (Z * Z))) : pyres (list otok * list (Z * Z)) :=
+    match r with Ok (out, vb) => Ok (map (ren_otok s) out, ren_pairs s vb) | Err e => Err e end.
+  Definition ren_emit (r : pyres (list otok * list Z * list (Z * Z))) : pyres (list otok * list Z * list (Z * Z)) :=
+    match r with Ok (out, ord, vb) => Ok (map (ren_otok s) out, map s ord, ren_pairs s vb) | Err e => Err e end.
+
+  Variable o : opts.
+  Variable fa fa' : Z -> Z -> pyres string.
+  Variable fat fat' : Z -> pyres string.
+
+  Lemma emit_closures_ren n cl casted : (forall m c, In (m, c) cl -> fa' (s n) (s m) = fa n m) -> forall vb,
+    emit_closures o fa' (s n) (map rtk cl) casted (ren_pairs s vb) = ren_emit_cl (emit_closures o fa n cl casted vb).
+  Proof.
+    induction cl as [|[m c] r IH]; intros Hfa vb; cbn [map emit_closures]; [reflexivity|].
+    unfold rtk at 1. cbn [fst snd].
+    assert (forall vb0, emit_closures o fa' (s n) (map rtk r) casted (ren_pairs s vb0) = ren_emit_cl (emit_closures o fa n r casted vb0)) as IH'
+      by (apply IH; intros m0 c0 H0; apply (Hfa m0 c0); right; exact H0).
+    rewrite (Hfa m c (or_introl eq_refl)).
+    destruct (o_asym o).
+    - rewrite (pair_mem_renG s s_inj). destruct (pair_mem (n, m) vb); cbn [negb].
+      + rewrite IH'. destruct (emit_closures o fa n r casted vb) as [[out vb']|e]; reflexivity.
+      + destruct (fa n m) as [x|e]; [|reflexivity].
+        change ((s m, s n) :: ren_pairs s vb) with (ren_pairs s ((m, n) :: vb)). rewrite IH'.
+        destruct (emit_closures o fa n r casted ((m, n) :: vb)) as [[out vb']|e]; reflexivity.
+    - destruct (fa n m) as [x|e]; [|reflexivity]. rewrite IH'.
+      destruct (emit_closures o fa n r casted vb) as [[out vb']|e]; reflexivity.
+  Qed.
+
+  (* the last loop of a component: if the atom / bond token functions of the two sides agree on the tokens that are
+     written, the output list is the renamed list (same strings), the written order is mapped by s *)
+  Theorem emit_ren smi tokens casted :
+    (forall n, In (TAtom n) smi -> fat' (s n) = fat n) ->
+    (forall n m, In (TBond n m) smi -> fa' (s n) (s m) = fa n m) ->
+    (forall n m c, In (TAtom n) smi -> In (m, c) (zgetl tokens n) -> fa' (s n) (s m) = fa n m) ->
+    forall vb,
+    emit o fat' fa' (map (ren_tok s) smi) (ren_tokens s tokens) casted (ren_pairs s vb) = ren_emit (emit o fat fa smi tokens casted vb).
+  Proof.
+    induction smi as [|t r IH]; intros H1 H2 H3 vb; cbn [map emit]; [reflexivity|].
+    assert (forall vb0, emit o fat' fa' (map (ren_tok s) r) (ren_tokens s tokens) casted (ren_pairs s vb0) =
+                        ren_emit (emit o fat fa r tokens casted vb0)) as IH'.
+    { apply IH; [intros n H; apply H1; right; exact H | intros n m H; apply H2; right; exact H
+                | intros n m c H; apply (H3 n m c); right; exact H]. }
+    destruct t; cbn [ren_tok].
+    - rewrite (H1 n (or_introl eq_refl)). destruct (fat n) as [x|e]; [|reflexivity].
+      rewrite zgetl_ren_tokens, emit_closures_ren by (intros m c Hm; apply (H3 n m c); [left; reflexivity | exact Hm]).
+      destruct (emit_closures o fa n (zgetl tokens n) casted vb) as [[cls vb1]|e]; cbn [ren_emit_cl]; [|reflexivity].
+      rewrite IH'. destruct (emit o fat fa r tokens casted vb1) as [[[out ord] vb2]|e]; cbn [ren_emit]; [|reflexivity].
+      cbn [map ren_otok]. rewrite (map_app (ren_otok s)). reflexivity.
+    - rewrite IH'. destruct (emit o fat fa r tokens casted vb) as [[[out ord] vb2]|e]; reflexivity.
+    - rewrite IH'. destruct (emit o fat fa r tokens casted vb) as [[[out ord] vb2]|e]; reflexivity.
+    - rewrite (H2 n m (or_introl eq_refl)). destruct (fa n m) as [x|e]; [|reflexivity].
+      rewrite IH'. destruct (emit o fat fa r tokens casted vb) as [[[out ord] vb2]|e]; reflexivity.
+  Qed.
+End EmitRen.
+
+(* non-vacuity of emit_ren with the real atom / bond token functions: ethanol renumbered n -> 10 - n *)
+Definition exw_smi : list tok := [TAtom 1; TBond 1 2; TAtom 2; TBond 2 3; TAtom 3].
+Definition exw_vis : adjacency := [(1, [2]); (2, [1; 3]); (3, [2])].
+Definition exw_fat (n : Z) := format_atom ex_g default_opts no_stabs n exw_vis.
+Definition exw_fat' (n : Z) := format_atom (ren_mol ex_s ex_g) default_opts no_stabs n (ren_vis ex_s exw_vis).
+Definition exw_fa := format_bond ex_g default_opts (ct_map ex_g no_stabs exw_vis).
+Definition exw_fa' := format_bond (ren_mol ex_s ex_g) default_opts (ct_map (ren_mol ex_s ex_g) no_stabs (ren_vis ex_s exw_vis)).
+
+Theorem emit_example :
+  (forall n, In (TAtom n) exw_smi -> exw_fat' (ex_s n) = exw_fat n) /\
+  (forall n m, In (TBond n m) exw_smi -> exw_fa' (ex_s n) (ex_s m) = exw_fa n m) /\
+  (forall n m c, In (TAtom n) exw_smi -> In (m, c) (zgetl ([] : list (Z * list (Z * Z))) n) -> exw_fa' (ex_s n) (ex_s m) = exw_fa n m) /\
+  emit default_opts exw_fat exw_fa exw_smi [] [] [] =
+    Ok ([OAtom 1 "C"; OBond 1 2 ""; OAtom 2 "C"; OBond 2 3 ""; OAtom 3 "O"], [1; 2; 3], []) /\
+  emit default_opts exw_fat' exw_fa' (map (ren_tok ex_s) exw_smi) (ren_tokens ex_s []) [] (ren_pairs ex_s []) =
+    Ok ([OAtom 9 "C"; OBond 9 8 ""; OAtom 8 "C"; OBond 8 7 ""; OAtom 7 "O"], [9; 8; 7], []).
+Proof.
+  split; [intros n H; cbn in H; intuition (try discriminate); match goal with E : TAtom _ = TAtom _ |- _ => injection E as <- end; vm_compute; reflexivity|].
+  split; [intros n m H; cbn in H; intuition (try discriminate); match goal with E : TBond _ _ = TBond _ _ |- _ => injection E as <- <- end; vm_compute; reflexivity|].
+  split; [intros n m c _ H; cbn in H; destruct H|].
+  split; vm_compute; reflexivity.
 Qed.
